@@ -120,8 +120,108 @@ def case_st(k):
     return build()
 
 
+# ------------------------------------------------------------------ connect-phase shapes under permutations
+def check_connect(case, ctx):
+    """C06's dependency shapes (stepwise infos/data, rules, cycles) connected under several listing/link orders"""
+    import re
+
+    import finam as fm
+
+    from . import c06
+    from .. import h_slot as hs
+
+    spec = case["spec"]
+    names = [c["name"] for c in spec["comps"]]
+    res = []
+    for op, lp in case["perms"]:
+        order = [names[i] for i in _perm(op, len(names))]
+        links = [spec["links"][i] for i in _perm(lp, len(spec["links"]))]
+        CC = c06._cls()
+        log = []
+        cs = {c["name"]: CC(c, k, log, 200) for k, c in enumerate(spec["comps"])}
+        comp = fm.Composition([cs[n] for n in order], print_log=False)
+        for a, ao, b, bi in links:
+            cs[a].outputs[ao] >> cs[b].inputs[bi]
+        try:
+            comp.connect(hs.tm(min(c["start"] for c in spec["comps"])))
+            out = ["ok", sorted((n, str({k: v.as_dict() for k, v in c.connector.in_infos.items()})) for n, c in cs.items())]
+        except fm.FinamCircularCouplingError as e:
+            m = re.search(r"\[(.*)\]", str(e))
+            out = ["circ", sorted(x.strip() for x in m.group(1).split(",") if x.strip()) if m else []]
+        except Exception as e:  # pylint: disable=broad-except
+            out = [type(e).__name__]
+        res.append((order, out))
+    ctx.event(f"connect-outcome={res[0][1][0]}")
+    ctx.nontrivial(len(spec["links"]) >= 2)
+    for order, out in res[1:]:
+        if out != res[0][1]:
+            ctx.violation("connect-outcome-differs", f"order {res[0][0]} -> {res[0][1][:2]}; order {order} -> {out[:2]} | spec {spec}")
+            return
+
+
+def connect_case(k):
+    from . import c06
+
+    @st.composite
+    def build(draw):
+        spec = draw(c06.shape())
+        perms = [[[], []], [[-1], [-1]]]
+        for _ in range(k - 2):
+            perms.append([draw(st.lists(st.integers(0, 5), max_size=4)), draw(st.lists(st.integers(0, 9), max_size=8))])
+        return {"spec": spec, "perms": perms}
+
+    return build()
+
+
+# ------------------------------------------------------------------ validation under permutations
+def check_topology(case, ctx):
+    """C19's link topologies: the verdict of validation must not depend on link creation / listing order"""
+    import finam as fm
+
+    from . import c19
+
+    spec = case["spec"]
+    res = []
+    for op, lp in case["perms"]:
+        s2 = dict(spec)
+        s2["listed"] = [spec["listed"][i] for i in _perm(op, len(spec["listed"]))]
+        s2["edges"] = [spec["edges"][i] for i in _perm(lp, len(spec["edges"]))]
+        comp, _comps, _nodes = c19.build(s2)
+        try:
+            comp.connect()
+            out = "ok"
+        except fm.FinamConnectError:
+            out = "FinamConnectError"
+        except Exception as e:  # pylint: disable=broad-except
+            out = type(e).__name__
+        res.append((s2["listed"], s2["edges"], out))
+    ctx.event(f"verdict={res[0][2]}")
+    fan = any(len([1 for a, _b in spec["edges"] if a == x]) > 1 for x, _y in spec["edges"])
+    ctx.nontrivial(fan and len(spec["edges"]) >= 3)
+    for listed, edges, out in res[1:]:
+        if out != res[0][2]:
+            ctx.violation("validation-verdict-differs", f"{res[0][2]} with edges {res[0][1]} listed {res[0][0]}; {out} with edges {edges} listed {listed}")
+            return
+
+
+def topology_case(k):
+    from . import c19
+
+    @st.composite
+    def build(draw):
+        spec = draw(c19.topo())
+        perms = [[[], []], [[-1], [-1]]]
+        for _ in range(k - 2):
+            perms.append([draw(st.lists(st.integers(0, 3), max_size=3)), draw(st.lists(st.integers(0, 11), max_size=12))])
+        return {"spec": spec, "perms": perms}
+
+    return build()
+
+
 def parts():
     return [
         Part("permutations", check, strategy=case_st(4), budget={"quick": 500, "thorough": 0}, shrink_budget=250),
         Part("permutations8", check, strategy=case_st(8), budget={"quick": 0, "thorough": 20000}, shrink_budget=250),
+        Part("topology_permutations", check_topology, strategy=topology_case(4), budget={"quick": 1500, "thorough": 60000}),
+        Part("connect_permutations", check_connect, strategy=connect_case(4), budget={"quick": 600, "thorough": 40000}),
     ]
